@@ -529,9 +529,13 @@ def m_retry(x, ref: RefResult, spec: dict, rid: int = 0) -> t.List[V]:
     # gaps between attempt i's end and attempt i+1's start
     for (n, i0, i1, delay) in ref.gaps:
         if (n, i0) in tr.ends and any(s[1] == n and s[2] == i1 for s in tr.starts):
-            t_end = tr.ends[(n, i0)][2]
-            t_start = [s[4] for s in tr.starts if s[1] == n and s[2] == i1][0]
-            if abs((t_start - t_end) - delay) > 1e-9:
+            p_end, _, t_end = tr.ends[(n, i0)]
+            p_start, t_start = [(s[0], s[4]) for s in tr.starts if s[1] == n and s[2] == i1][0]
+            # other timers (another node's retry delay) fired in between advance the clock as well: then only 'at least delay'
+            fired = sum(1 for e in x.log[p_end:p_start] if e[0] == 'deliver' and str(e[1]).startswith('timer@'))
+            own = 1 if delay > 0 else 0
+            gap = t_start - t_end
+            if (fired <= own and abs(gap - delay) > 1e-9) or gap < delay - 1e-9:
                 out.append(('retry-wrong-delay', f'{n}: attempt {i1} started {t_start - t_end:g}s after attempt {i0} failed; configured delay {delay:g}s'))
     # defaults
     got_def = [(d[1], norm(d[2])) for d in tr.defaults]
